@@ -3,7 +3,15 @@ namespace SdnsVerif.Gen.C08
 
 def lease_ceiling_ns : Nat := 43200000000000
 def maximumTTL_ns : Nat := 43200000000000
+def mono_delegation_set : Bool := true
+def mono_delegation_setuntil : Bool := true
+def mono_entry_cut : Bool := true
+def mono_entry_cut_after_refresh : Bool := true
+def mono_entry_stored : Bool := true
+def mono_meta_cut : Bool := true
+def mono_mincut : Bool := true
 def shape_cached_descent_min : Bool := true
+def shape_chase_inherits_lineage : Bool := false
 def shape_ds_bounds_lease : Bool := true
 def shape_hit_does_not_store : Bool := true
 def shape_lease_anchored_at_observation : Bool := true
@@ -16,5 +24,6 @@ def shape_setuntil_from_mincut : Bool := true
 def shape_single_clock_read : Bool := true
 def shape_subquery_stores_cut : Bool := true
 def shape_validreferral_before_setuntil : Bool := true
+def wallstep_fabrication_works : Bool := true
 
 end SdnsVerif.Gen.C08
